@@ -236,3 +236,4 @@ def check(facts, rep, tier, cfg):
     import whomay
     whomay.check(facts, rep, "C15.S7", "C15")
     whomay.check_new_statics(facts, rep, "C15.S7", "C15")
+    whomay.check_new_trait_methods(facts, rep, "C15.S7", "C15")
